@@ -32,7 +32,10 @@ func build(k, dpos, tokens int, lang string, truth int) *drv.Graph {
 		if pos == dpos {
 			b := g.Add(drv.Task, "bd")
 			e := g.Add(drv.End, "ed")
-			g.LinkDefault(x, b)
+			if f := g.LinkDefault(x, b); lang == "expr-defcond" {
+				// the default flow carries a (false) condition of its own, which must be ignored
+				f.Cond = drv.Const(false)
+			}
 			g.Link(b, e, nil)
 			if pos == k {
 				break
@@ -149,6 +152,9 @@ func init() {
 					}
 					if (k <= 2 && tokens == 1) || thorough {
 						out = append(out, scn(k, dpos, tokens, 0, "same-text-both-languages"))
+					}
+					if dpos >= 0 && ((k <= 2 && tokens <= 2) || thorough) {
+						out = append(out, scn(k, dpos, tokens, 0, "expr-defcond"))
 					}
 					if (k <= 2 && tokens <= 2) || (thorough && k <= 3) {
 						out = append(out, scn(k, dpos, tokens, 1, "expr"))
